@@ -103,4 +103,473 @@ example : CalculateReward ⟨3333333333333333333333333333333333, -34⟩ D34.zero
 example : CalculateRewardMultiplierNew D34.zero 2 3 = ⟨6666666666666666666666666666666667, -34⟩ := by decide
 example : S_reward_mono 25 1 3 4 := by decide
 
+/-! ## bank frames -/
+
+/-- only the listed accounts' balances may differ -/
+def Frame (l : List Addr) (b b' : Bank) : Prop := ∀ a, a ∉ l → ∀ d, b'.bal a d = b.bal a d
+/-- only the listed denoms' supplies may differ -/
+def SupFrame (l : List Denom) (b b' : Bank) : Prop := ∀ d, d ∉ l → b'.sup d = b.sup d
+
+theorem Frame.refl (l : List Addr) (b : Bank) : Frame l b b := fun _ _ _ => rfl
+theorem SupFrame.refl (l : List Denom) (b : Bank) : SupFrame l b b := fun _ _ => rfl
+theorem Frame.trans {l : List Addr} {b1 b2 b3 : Bank} (h1 : Frame l b1 b2) (h2 : Frame l b2 b3) : Frame l b1 b3 :=
+  fun a ha d => (h2 a ha d).trans (h1 a ha d)
+theorem SupFrame.trans {l : List Denom} {b1 b2 b3 : Bank} (h1 : SupFrame l b1 b2) (h2 : SupFrame l b2 b3) : SupFrame l b1 b3 :=
+  fun d hd => (h2 d hd).trans (h1 d hd)
+theorem Frame.mono {l l' : List Addr} {b b' : Bank} (h : Frame l b b') (hs : ∀ a, a ∈ l → a ∈ l') : Frame l' b b' :=
+  fun a ha d => h a (fun hm => ha (hs a hm)) d
+theorem SupFrame.mono {l l' : List Denom} {b b' : Bank} (h : SupFrame l b b') (hs : ∀ a, a ∈ l → a ∈ l') : SupFrame l' b b' :=
+  fun a ha => h a (fun hm => ha (hs a hm))
+
+theorem credit_frame (b : Bank) (a : Addr) (d : Denom) (x : Int) : Frame [a] b (b.credit a d x) ∧ SupFrame [] b (b.credit a d x) := by
+  refine ⟨fun a' ha d' => ?_, fun _ _ => rfl⟩
+  have : a' ≠ a := by simpa using ha
+  simp [this]
+
+theorem send_frame {b b' : Bank} {s t : Addr} {d : Denom} {x : Int} (h : b.send s t d x = .ok b') :
+    Frame [s, t] b b' ∧ SupFrame [] b b' := by
+  obtain ⟨_, _, e⟩ := send_ok h
+  subst e
+  refine ⟨fun a ha d' => ?_, fun _ _ => rfl⟩
+  have h1 : a ≠ s ∧ a ≠ t := by simpa using ha
+  simp [h1.1, h1.2]
+
+theorem mint_frame {b b' : Bank} {m : Addr} {d : Denom} {x : Int} (h : b.mint m d x = .ok b') :
+    Frame [m] b b' ∧ SupFrame [d] b b' := by
+  obtain ⟨_, e⟩ := mint_ok h
+  subst e
+  refine ⟨fun a ha d' => ?_, fun d' hd => ?_⟩
+  · have h1 : a ≠ m := by simpa using ha
+    simp [h1]
+  · have h1 : d' ≠ d := by simpa using hd
+    simp [h1]
+
+theorem burn_frame {b b' : Bank} {m : Addr} {d : Denom} {x : Int} (h : b.burn m d x = .ok b') :
+    Frame [m] b b' ∧ SupFrame [d] b b' := by
+  obtain ⟨_, _, e⟩ := burn_ok h
+  subst e
+  refine ⟨fun a ha d' => ?_, fun d' hd => ?_⟩
+  · have h1 : a ≠ m := by simpa using ha
+    simp [h1]
+  · have h1 : d' ≠ d := by simpa using hd
+    simp [h1]
+
+theorem swap_frame {b b' : Bank} {holder : Addr} {dIn dOut : Denom} {x : Int}
+    (h : Convert.swapDenoms b holder dIn dOut x = .ok b') :
+    Frame [holder, Convert.moduleAcc] b b' ∧ SupFrame [dIn, dOut] b b' := by
+  unfold Convert.swapDenoms at h
+  by_cases hn : x < 0
+  · simp [hn] at h
+  · simp only [hn, if_false] at h
+    obtain ⟨b1, h1, h⟩ := bind_ok h
+    obtain ⟨b2, h2, h⟩ := bind_ok h
+    obtain ⟨b3, h3, h⟩ := bind_ok h
+    have f1 := send_frame h1
+    have f2 := burn_frame h2
+    have f3 := mint_frame h3
+    have f4 := send_frame h
+    refine ⟨?_, ?_⟩
+    · exact ((f1.1.mono (by simp)).trans (f2.1.mono (by simp))).trans ((f3.1.mono (by simp)).trans (f4.1.mono (by simp)))
+    · exact ((f1.2.mono (by simp)).trans (f2.2.mono (by simp))).trans ((f3.2.mono (by simp)).trans (f4.2.mono (by simp)))
+
+theorem creditCoins_frame (cs : Coins) (b : Bank) (a : Addr) : Frame [a] b (creditCoins b a cs) ∧ SupFrame [] b (creditCoins b a cs) := by
+  induction cs generalizing b with
+  | nil => exact ⟨Frame.refl _ _, SupFrame.refl _ _⟩
+  | cons c cs ih =>
+    have h1 := credit_frame b a c.1 c.2
+    have h2 := ih (b.credit a c.1 c.2)
+    exact ⟨h1.1.trans h2.1, h1.2.trans h2.2⟩
+
+theorem sendCoins_frame (cs : Coins) {b b' : Bank} {s t : Addr} (h : sendCoins b s t cs = .ok b') :
+    Frame [s, t] b b' ∧ SupFrame [] b b' := by
+  induction cs generalizing b with
+  | nil =>
+    simp [sendCoins, List.foldlM, pure] at h
+    subst h
+    exact ⟨Frame.refl _ _, SupFrame.refl _ _⟩
+  | cons c cs ih =>
+    simp only [sendCoins, List.foldlM] at h
+    obtain ⟨b1, h1, h⟩ := bind_ok h
+    have f1 := send_frame h1
+    have f2 := ih h
+    exact ⟨f1.1.trans f2.1, f1.2.trans f2.2⟩
+
+/-! ## handlers: what a successful message may change -/
+
+theorem claim_ok {s s1 : St} {u : Addr} {v : Val} {t : Coins} (h : claimRewards s u v = .ok (s1, t)) :
+    claimable s u v = .ok t ∧ sendCoins s.bank (saver v) u t = .ok s1.bank
+    ∧ s1.mult = s.mult ∧ s1.hasMult = s.hasMult ∧ s1.unb = s.unb ∧ s1.nextId = s.nextId ∧ s1.sendOff = s.sendOff
+    ∧ s1.received = s.received ∧ s1.paidOut = s.paidOut ∧ s1.claimed = addClaimed s.claimed v t
+    ∧ s1.last = (fun u' v' d' => if u' = u ∧ v' = v ∧ s.hasMult v d' then s.mult v d' else s.last u' v' d') := by
+  unfold claimRewards at h
+  obtain ⟨t', h1, h⟩ := bind_ok h
+  obtain ⟨b, h2, h⟩ := bind_ok h
+  simp only [Res.ok.injEq, Prod.mk.injEq] at h
+  obtain ⟨e1, e2⟩ := h
+  subst e2 e1
+  exact ⟨h1, h2, rfl, rfl, rfl, rfl, rfl, rfl, rfl, rfl, rfl⟩
+
+/-- Msg/NonVotingDelegate, when it succeeds: a claim, then only bank movements among the sender, the module accounts
+    and the staking pool, supply changes only in fee/bond/this validator's share denom. -/
+theorem delegate_ok {s s' : St} {u : Addr} {v : Val} {a : Int} {d : Denom} {x : StakeExt}
+    (h : delegate s u v a d x = .ok s') :
+    ∃ s1 t, claimRewards s u v = .ok (s1, t)
+      ∧ Frame [u, moduleAcc, Convert.moduleAcc, "module:bonded_pool"] s1.bank s'.bank
+      ∧ SupFrame [feeDenom, bondDenom, shareDenom v] s1.bank s'.bank
+      ∧ s'.mult = s1.mult ∧ s'.hasMult = s1.hasMult ∧ s'.last = s1.last ∧ s'.unb = s1.unb ∧ s'.nextId = s1.nextId
+      ∧ s'.received = s1.received ∧ s'.claimed = s1.claimed ∧ s'.paidOut = s1.paidOut
+      ∧ s'.sendOff (shareDenom v) = true ∧ (∀ d', s1.sendOff d' = true → s'.sendOff d' = true) := by
+  unfold delegate at h
+  by_cases hd : d ≠ feeDenom
+  · simp [hd] at h
+  simp only [hd, if_false] at h
+  obtain ⟨⟨s1, t⟩, hc, h⟩ := bind_ok h
+  obtain ⟨share, hs, h⟩ := bind_ok h
+  by_cases ha : a < 0
+  · simp [ha] at h
+  simp only [ha, if_false] at h
+  obtain ⟨b1, h1, h⟩ := bind_ok h
+  obtain ⟨b2, h2, h⟩ := bind_ok h
+  by_cases hk : x.stakeOk
+  swap
+  · simp [hk] at h
+  simp only [hk, Bool.not_true, Bool.false_eq_true, if_false] at h
+  obtain ⟨b3, h3, h⟩ := bind_ok h
+  by_cases hsh : share < 0
+  · simp [hsh] at h
+  simp only [hsh, if_false] at h
+  obtain ⟨b5, h5, h⟩ := bind_ok h
+  obtain ⟨b6, h6, h⟩ := bind_ok h
+  simp only [Res.ok.injEq] at h
+  subst h
+  have f1 := send_frame h1
+  have f2 := swap_frame h2
+  have f3 := send_frame h3
+  have f4 := creditCoins_frame x.hook b3 moduleAcc
+  have f5 := mint_frame h5
+  have f6 := send_frame h6
+  refine ⟨s1, t, hc, ?_, ?_, rfl, rfl, rfl, rfl, rfl, rfl, rfl, rfl, by simp, ?_⟩
+  · exact (((f1.1.mono (by simp)).trans (f2.1.mono (by simp))).trans ((f3.1.mono (by simp)).trans (f4.1.mono (by simp)))).trans
+      ((f5.1.mono (by simp)).trans (f6.1.mono (by simp)))
+  · exact (((f1.2.mono (by simp)).trans (f2.2.mono (by simp [Convert.convertReverse]))).trans ((f3.2.mono (by simp)).trans (f4.2.mono (by simp)))).trans
+      ((f5.2.mono (by simp)).trans (f6.2.mono (by simp)))
+  · intro d' hd'
+    by_cases e : d' = shareDenom v <;> simp [e, hd']
+
+/-- Msg/NonVotingUndelegate, when it succeeds: a claim, the sender's shares burnt, one queue entry appended. -/
+theorem undelegate_ok {s s' : St} {u : Addr} {v : Val} {a : Int} {rc : Addr} {x : StakeExt}
+    (h : undelegate s u v a rc x = .ok s') :
+    ∃ s1 t, claimRewards s u v = .ok (s1, t)
+      ∧ Frame [u, moduleAcc] s1.bank s'.bank ∧ SupFrame [shareDenom v] s1.bank s'.bank
+      ∧ s'.mult = s1.mult ∧ s'.hasMult = s1.hasMult ∧ s'.last = s1.last
+      ∧ s'.unb = s1.unb ++ [⟨s1.nextId, rc, a, x.completion⟩] ∧ s'.nextId = s1.nextId + 1
+      ∧ s'.received = s1.received ∧ s'.claimed = s1.claimed ∧ s'.paidOut = s1.paidOut ∧ s'.sendOff = s1.sendOff
+      ∧ 0 < a := by
+  unfold undelegate at h
+  by_cases ha : a ≤ 0
+  · simp [ha] at h
+  simp only [ha, if_false] at h
+  obtain ⟨⟨s1, t⟩, hc, h⟩ := bind_ok h
+  obtain ⟨share, hs, h⟩ := bind_ok h
+  by_cases hsh : share < 0
+  · simp [hsh] at h
+  simp only [hsh, if_false] at h
+  obtain ⟨b1, h1, h⟩ := bind_ok h
+  obtain ⟨b2, h2, h⟩ := bind_ok h
+  by_cases hk : x.stakeOk
+  swap
+  · simp [hk] at h
+  simp only [hk, Bool.not_true, Bool.false_eq_true, if_false, Res.ok.injEq] at h
+  subst h
+  have f1 := send_frame h1
+  have f2 := burn_frame h2
+  have f3 := creditCoins_frame x.hook b2 moduleAcc
+  refine ⟨s1, t, hc, ?_, ?_, rfl, rfl, rfl, rfl, rfl, rfl, rfl, rfl, rfl, by omega⟩
+  · exact ((f1.1.mono (by simp)).trans (f2.1.mono (by simp))).trans (f3.1.mono (by simp))
+  · exact ((f1.2.mono (by simp)).trans (f2.2.mono (by simp))).trans (f3.2.mono (by simp))
+
+/-! ## state-machine theorems -/
+
+/-- A rejected message changes nothing at all (so one user's failing message cannot affect anybody). -/
+theorem step_atomic (s : St) (op : Op) (u : Addr) (v : Val) (hop : op.sender = some (u, v))
+    (hfail : (step s op).2.cls ≠ "ok") : (step s op).1 = s := by
+  cases op with
+  | delegate u' v' a d x =>
+    simp only [step] at hfail ⊢
+    cases hr : delegate s u' v' a d x <;> simp_all
+  | undelegate u' v' a rc x =>
+    simp only [step] at hfail ⊢
+    cases hr : undelegate s u' v' a rc x <;> simp_all
+  | claim u' v' =>
+    simp only [step] at hfail ⊢
+    cases hr : claimRewards s u' v' <;> simp_all
+  | block _ _ _ => simp [Op.sender] at hop
+
+/-- what every message leaves alone: multipliers, other users' checkpoints, other accounts' balances -/
+theorem message_frame (s : St) (op : Op) (u : Addr) (v : Val) (hop : op.sender = some (u, v)) :
+    (step s op).1.mult = s.mult ∧ (step s op).1.hasMult = s.hasMult
+    ∧ (∀ w, w ≠ u → (step s op).1.last w = s.last w)
+    ∧ Frame (touched u v) s.bank (step s op).1.bank := by
+  have claimFrame : ∀ {s1 : St} {t : Coins}, claimRewards s u v = .ok (s1, t) →
+      s1.mult = s.mult ∧ s1.hasMult = s.hasMult ∧ (∀ w, w ≠ u → s1.last w = s.last w) ∧ Frame (touched u v) s.bank s1.bank := by
+    intro s1 t hc
+    obtain ⟨_, hs, hm, hh, _, _, _, _, _, _, hl⟩ := claim_ok hc
+    refine ⟨hm, hh, ?_, (sendCoins_frame t hs).1.mono (by simp [touched])⟩
+    intro w hw
+    rw [hl]
+    funext v' d'
+    simp [hw]
+  cases op with
+  | delegate u' v' a d x =>
+    simp only [Op.sender, Option.some.injEq, Prod.mk.injEq] at hop
+    obtain ⟨rfl, rfl⟩ := hop
+    simp only [step]
+    cases hr : delegate s u' v' a d x with
+    | ok s' =>
+      obtain ⟨s1, t, hc, hf, _, hm, hh, hl, _⟩ := delegate_ok hr
+      obtain ⟨cm, ch, cl, cf⟩ := claimFrame hc
+      exact ⟨hm.trans cm, hh.trans ch, fun w hw => by rw [hl]; exact cl w hw, cf.trans (hf.mono (by simp [touched]))⟩
+    | err c => exact ⟨rfl, rfl, fun _ _ => rfl, Frame.refl _ _⟩
+    | panic k => exact ⟨rfl, rfl, fun _ _ => rfl, Frame.refl _ _⟩
+  | undelegate u' v' a rc x =>
+    simp only [Op.sender, Option.some.injEq, Prod.mk.injEq] at hop
+    obtain ⟨rfl, rfl⟩ := hop
+    simp only [step]
+    cases hr : undelegate s u' v' a rc x with
+    | ok s' =>
+      obtain ⟨s1, t, hc, hf, _, hm, hh, hl, _⟩ := undelegate_ok hr
+      obtain ⟨cm, ch, cl, cf⟩ := claimFrame hc
+      exact ⟨hm.trans cm, hh.trans ch, fun w hw => by rw [hl]; exact cl w hw, cf.trans (hf.mono (by simp [touched]))⟩
+    | err c => exact ⟨rfl, rfl, fun _ _ => rfl, Frame.refl _ _⟩
+    | panic k => exact ⟨rfl, rfl, fun _ _ => rfl, Frame.refl _ _⟩
+  | claim u' v' =>
+    simp only [Op.sender, Option.some.injEq, Prod.mk.injEq] at hop
+    obtain ⟨rfl, rfl⟩ := hop
+    simp only [step]
+    cases hr : claimRewards s u' v' with
+    | ok r =>
+      obtain ⟨s1, t⟩ := r
+      exact claimFrame hr
+    | err c => exact ⟨rfl, rfl, fun _ _ => rfl, Frame.refl _ _⟩
+    | panic k => exact ⟨rfl, rfl, fun _ _ => rfl, Frame.refl _ _⟩
+  | block _ _ _ => simp [Op.sender] at hop
+
+/-- no_cross_blocking: whatever message user `u` sends (accepted or rejected), any other account `w` that is not a
+    module account keeps its share balances, its checkpoints and therefore exactly the same claimable reward at
+    every validator and denom. -/
+theorem no_cross_blocking (s : St) (op : Op) (u : Addr) (v : Val) (hop : op.sender = some (u, v))
+    (w : Addr) (hw : w ∉ touched u v) (v' : Val) (d : Denom) :
+    claimableByDenom (step s op).1 w v' d = claimableByDenom s w v' d
+    ∧ (step s op).1.bank.bal w (shareDenom v') = s.bank.bal w (shareDenom v') := by
+  obtain ⟨hm, _, hl, hf⟩ := message_frame s op u v hop
+  have hwu : w ≠ u := by
+    intro e; apply hw; simp [touched, e]
+  have hb := hf w hw (shareDenom v')
+  refine ⟨?_, hb⟩
+  simp only [claimableByDenom, hm, hl w hwu, hb]
+
+/-- store well-formedness: a checkpoint exists only where a multiplier exists (absent entries read as 0) -/
+def WF (s : St) : Prop := ∀ v d, s.hasMult v d = false → s.mult v d = D34.zero ∧ ∀ u, s.last u v d = D34.zero
+
+/-- after a successful claim the claimer's checkpoint equals the multiplier in EVERY denom (the S10 fix) -/
+theorem claim_checkpoint {s s1 : St} {u : Addr} {v : Val} {t : Coins} (hwf : WF s)
+    (h : claimRewards s u v = .ok (s1, t)) : ∀ d, s1.last u v d = s1.mult v d := by
+  obtain ⟨_, _, hm, _, _, _, _, _, _, _, hl⟩ := claim_ok h
+  intro d
+  rw [hl, hm]
+  cases hh : s.hasMult v d with
+  | true => simp [hh]
+  | false =>
+    obtain ⟨h1, h2⟩ := hwf v d hh
+    simp [hh, h1, h2 u]
+
+/-- with checkpoint = multiplier in every denom a claim succeeds and pays nothing -/
+theorem claim_zero_of_checkpoint (s : St) (u : Addr) (v : Val) (h : ∀ d, s.last u v d = s.mult v d) :
+    ∃ s', claimRewards s u v = .ok (s', []) := by
+  have hz : ∀ d, claimableByDenom s u v d = 0 := by
+    intro d
+    simp only [claimableByDenom, h d]
+    exact reward_zero_of_no_accrual _ _
+  have hc : claimable s u v = .ok [] := by
+    simp only [claimable, rewardDenoms, List.foldlM, hz]
+    by_cases h1 : s.bank.bal (saver v) feeDenom ≤ 0 <;> by_cases h2 : s.bank.bal (saver v) bondDenom ≤ 0 <;>
+      simp [h1, h2, bind, Res.bind, pure]
+  simp only [claimRewards, hc, Res.bind, sendCoins, List.foldlM, pure]
+  exact ⟨_, rfl⟩
+
+/-- messages of other users keep `checkpoint = multiplier` of user `u` -/
+theorem checkpoint_kept (s : St) (op : Op) (w : Addr) (v' : Val) (hop : op.sender = some (w, v')) (u : Addr) (hne : u ≠ w)
+    (v : Val) (h : ∀ d, s.last u v d = s.mult v d) : ∀ d, (step s op).1.last u v d = (step s op).1.mult v d := by
+  obtain ⟨hm, _, hl, _⟩ := message_frame s op w v' hop
+  intro d
+  rw [hm, hl u hne]
+  exact h d
+
+/-- second_claim_zero: after a successful claim of `u` at `v`, and after ANY sequence of messages of other users
+    (no block in between, so no new reward), a further claim of `u` at `v` succeeds and pays nothing. -/
+theorem second_claim_zero (s : St) (hwf : WF s) (u : Addr) (v : Val) (s1 : St) (t : Coins)
+    (h1 : claimRewards s u v = .ok (s1, t))
+    (ops : List Op) (hops : ∀ op ∈ ops, ∃ w v', op.sender = some (w, v') ∧ w ≠ u) :
+    ∃ s2, claimRewards (run s1 ops) u v = .ok (s2, []) := by
+  have hk : ∀ (ops : List Op) (s : St), (∀ op ∈ ops, ∃ w v', op.sender = some (w, v') ∧ w ≠ u) →
+      (∀ d, s.last u v d = s.mult v d) → ∀ d, (run s ops).last u v d = (run s ops).mult v d := by
+    intro ops
+    induction ops with
+    | nil => intro s _ h; exact h
+    | cons op ops ih =>
+      intro s hops h
+      obtain ⟨w, v', hs, hne⟩ := hops op (by simp)
+      simp only [run]
+      exact ih _ (fun o ho => hops o (by simp [ho])) (checkpoint_kept s op w v' hs u (fun e => hne e.symm) v h)
+  exact claim_zero_of_checkpoint _ u v (hk ops s1 hops (claim_checkpoint hwf h1))
+
+/-! ### the end-blocker -/
+
+/-- the garbage collector touches only the bank, the queue and the paid-out ledger; it pays an entry only if its
+    completion time has been reached (never early — the S9 fix), exactly its amount, and removes it. -/
+theorem gc_ok (now : Int) (l : List Unb) : ∀ (s s' : St), gc now l s = .ok s' →
+    s'.mult = s.mult ∧ s'.hasMult = s.hasMult ∧ s'.last = s.last ∧ s'.received = s.received ∧ s'.claimed = s.claimed
+    ∧ s'.nextId = s.nextId ∧ s'.sendOff = s.sendOff
+    ∧ SupFrame [feeDenom, bondDenom] s.bank s'.bank
+    ∧ (∀ i, s'.paidOut i ≠ s.paidOut i → ∃ e ∈ l, e.id = i ∧ e.completion ≤ now)
+    ∧ (∀ x ∈ s'.unb, x ∈ s.unb) := by
+  induction l with
+  | nil =>
+    intro s s' h
+    simp only [gc, Res.ok.injEq] at h
+    subst h
+    exact ⟨rfl, rfl, rfl, rfl, rfl, rfl, rfl, SupFrame.refl _ _, fun i hi => absurd rfl hi, fun x hx => hx⟩
+  | cons e rest ih =>
+    intro s s' h
+    simp only [gc] at h
+    by_cases h1 : unixSec e.completion > unixSec now
+    · simp only [h1, if_true, Res.ok.injEq] at h
+      subst h
+      exact ⟨rfl, rfl, rfl, rfl, rfl, rfl, rfl, SupFrame.refl _ _, fun i hi => absurd rfl hi, fun x hx => hx⟩
+    · simp only [h1, if_false] at h
+      by_cases h2 : e.completion > now
+      · simp only [h2, if_true] at h
+        obtain ⟨a1, a2, a3, a4, a5, a6, a7, a8, a9, a10⟩ := ih s s' h
+        refine ⟨a1, a2, a3, a4, a5, a6, a7, a8, ?_, a10⟩
+        intro i hi
+        obtain ⟨x, hx, hxi⟩ := a9 i hi
+        exact ⟨x, by simp [hx], hxi⟩
+      · simp only [h2, if_false] at h
+        obtain ⟨b, hb, h⟩ := bind_ok h
+        obtain ⟨a1, a2, a3, a4, a5, a6, a7, a8, a9, a10⟩ := ih _ s' h
+        simp only at a1 a2 a3 a4 a5 a6 a7 a8 a9 a10
+        have hsup : SupFrame [feeDenom, bondDenom] s.bank b := by
+          unfold withdrawUnbonded at hb
+          obtain ⟨b1, hb1, hb2⟩ := bind_ok hb
+          have f1 := swap_frame hb1
+          have f2 := send_frame hb2
+          exact (f1.2.mono (by simp [Convert.convert])).trans (f2.2.mono (by simp))
+        refine ⟨a1, a2, a3, a4, a5, a6, a7, hsup.trans a8, ?_, ?_⟩
+        · intro i hi
+          by_cases hie : i = e.id
+          · exact ⟨e, by simp, hie.symm, by omega⟩
+          · have : s'.paidOut i ≠ (if i = e.id then s.paidOut i + e.amount else s.paidOut i) := by simpa [hie] using hi
+            obtain ⟨x, hx, hxi⟩ := a9 i this
+            exact ⟨x, by simp [hx], hxi⟩
+        · intro x hx
+          have := a10 x hx
+          exact (List.mem_filter.1 this).1
+
+theorem wf_update (s : St) (hwf : WF s) (v : Val) (d : Denom) (m : D34) (b : Bank) (r : Val → Denom → Int) :
+    WF { s with bank := b, received := r,
+                mult := fun v' d' => if v' = v ∧ d' = d then m else s.mult v' d',
+                hasMult := fun v' d' => if v' = v ∧ d' = d then true else s.hasMult v' d' } := by
+  intro v' d' h
+  by_cases hk : v' = v ∧ d' = d
+  · simp [hk] at h
+  · simp only [hk, if_false] at h ⊢
+    exact hwf v' d' h
+
+theorem handleRewards_wf (s : St) (hwf : WF s) (v : Val) (coins : Coins) : WF (handleRewards s v coins) := by
+  unfold handleRewards
+  by_cases h0 : coins.all (fun c => c.2 = 0) = true
+  · simp only [h0, if_true]; exact hwf
+  simp only [h0]
+  cases hs : sendCoins (creditCoins s.bank moduleAcc coins) moduleAcc (saver v) coins with
+  | ok b1 =>
+    simp only [Bool.false_eq_true, if_false]
+    by_cases ht : b1.sup (shareDenom v) = 0
+    · simp only [ht, if_true]; exact hwf
+    · simp only [ht, if_false]
+      have key : ∀ (cs : Coins) (s0 : St), WF s0 → WF (cs.foldl (fun s c =>
+          { s with mult := fun v' d' => if v' = v ∧ d' = c.1 then D34.reparse (CalculateRewardMultiplierNew (s.mult v c.1) c.2 (b1.sup (shareDenom v))) else s.mult v' d',
+                   hasMult := fun v' d' => if v' = v ∧ d' = c.1 then true else s.hasMult v' d' }) s0) := by
+        intro cs
+        induction cs with
+        | nil => intro s0 h; exact h
+        | cons c cs ih =>
+          intro s0 h
+          simp only [List.foldl]
+          exact ih _ (wf_update s0 h v c.1 _ s0.bank s0.received)
+      exact key coins _ hwf
+  | err c => simp only [Bool.false_eq_true, if_false]; exact hwf
+  | panic k => simp only [Bool.false_eq_true, if_false]; exact hwf
+
+/-- WF is an invariant of every operation -/
+theorem wf_step (s : St) (op : Op) (hwf : WF s) : WF (step s op).1 := by
+  have wf_claim : ∀ {u v s1 t}, claimRewards s u v = .ok (s1, t) → WF s1 := by
+    intro u v s1 t hc
+    obtain ⟨_, _, hm, hh, _, _, _, _, _, _, hl⟩ := claim_ok hc
+    intro v' d' h
+    rw [hh] at h
+    obtain ⟨h1, h2⟩ := hwf v' d' h
+    refine ⟨by rw [hm]; exact h1, fun w => ?_⟩
+    rw [hl]
+    by_cases hk : w = u ∧ v' = v ∧ s.hasMult v d' = true
+    · obtain ⟨_, rfl, hx⟩ := hk
+      rw [h] at hx; exact absurd hx (by simp)
+    · simp only [hk, if_false]; exact h2 w
+  cases op with
+  | delegate u v a d x =>
+    simp only [step]
+    cases hr : delegate s u v a d x with
+    | ok s' =>
+      obtain ⟨s1, t, hc, _, _, hm, hh, hl, _⟩ := delegate_ok hr
+      have := wf_claim hc
+      intro v' d' h
+      rw [hh] at h
+      rw [hm, hl]; exact this v' d' h
+    | err c => exact hwf
+    | panic k => exact hwf
+  | undelegate u v a rc x =>
+    simp only [step]
+    cases hr : undelegate s u v a rc x with
+    | ok s' =>
+      obtain ⟨s1, t, hc, _, _, hm, hh, hl, _⟩ := undelegate_ok hr
+      have := wf_claim hc
+      intro v' d' h
+      rw [hh] at h
+      rw [hm, hl]; exact this v' d' h
+    | err c => exact hwf
+    | panic k => exact hwf
+  | claim u v =>
+    simp only [step]
+    cases hr : claimRewards s u v with
+    | ok r => obtain ⟨s1, t⟩ := r; exact wf_claim hr
+    | err c => exact hwf
+    | panic k => exact hwf
+  | block now m rw =>
+    simp only [step]
+    cases hr : endBlock s now m rw with
+    | ok s' =>
+      unfold endBlock at hr
+      have key : ∀ (l : List (Val × Coins)) (s0 : St), WF s0 → WF (l.foldl (fun s r => handleRewards s r.1 r.2) s0) := by
+        intro l
+        induction l with
+        | nil => intro s0 h; exact h
+        | cons r l ih => intro s0 h; exact ih _ (handleRewards_wf s0 h r.1 r.2)
+      have h0 : WF { s with bank := s.bank.credit moduleAcc bondDenom m } := hwf
+      have h1 := key rw _ h0
+      obtain ⟨a1, a2, a3, _⟩ := gc_ok now _ _ s' hr
+      intro v' d' h
+      rw [a2] at h
+      rw [a1, a3]; exact h1 v' d' h
+    | err c => exact hwf
+    | panic k => exact hwf
+
 end Sunrise.C10
